@@ -3,6 +3,37 @@
 import json, sys
 
 CLAIMED = {
+ "C01": dict(level="exploration", technique="stateful property-based testing (rapid state machine) against a reference model; per-step introspection invariant",
+   text="Model-based generated histories (authorize/redeem/refresh/revoke/advance over 3 clients, 2 stores, HMAC/JWT, 3 refresh-scope configurations) with a three-valued reference model; every step is followed by introspection of every token ever received. Held on everything explored; not a proof.",
+   note="Trusted: the reference model (transcription of the statement, DESIGN.md app. C), the harness integrator, rapid. The hybrid authorization-endpoint access token is unspecified after a replay.", ref="DESIGN.md 3, 4 C01"),
+ "C02": dict(level="exploration", technique="stateful property-based testing (rapid state machine) with storage recorder against a reference model",
+   text="Generated sequences of wrong and right redemption attempts per code (client, redirect_uri spelling, smuggled parameters, age) inside longer histories; refused attempts must issue nothing (storage recorder), leave the code usable, and tokens must carry exactly the consented grant.",
+   note="Trusted: reference model, recorder wrapper. redirect_uri omitted at authorization => no binding expected; SanitationWhiteList left at default.", ref="DESIGN.md 4 C02"),
+ "C03": dict(level="exploration", technique="property-based testing (rapid): generated attempt sequences against an RFC 7636 reference predicate",
+   text="Every attempt in a generated sequence is decided by an independent reference (well-formedness + S256/plain transformation + enforcement policy), regardless of earlier attempts; both directions asserted (forbidden attempts refused, the decisive correct attempt accepted).",
+   note="Trusted: refspec PKCE predicate. Enforcement may be switched on after the code was issued (operator action).", ref="DESIGN.md 4 C03"),
+ "C04": dict(level="exploration", technique="stateful property-based testing (rapid state machine) against a reference model; per-step introspection invariant",
+   text="Generated refresh chains (depth up to ~10) over grants of code/hybrid/password/device origin with replays of any generation, revocations and other families in between; rotation and family-kill expectations from the statement, other grants must be unaffected.",
+   note="Trusted: reference model. Family state after presenting a revoked (not used) refresh token, or with overlapping refusal reasons, is unspecified.", ref="DESIGN.md 4 C04"),
+ "C05": dict(level="exploration", technique="stateful property-based testing (rapid state machine) with client-registration edits against a reference model",
+   text="Generated grants x smuggled refresh parameters x presenting client x post-issuance registration edits x refresh-scope configuration; issuance rule of refresh tokens per flow and confinement of refreshed tokens to the original grant.",
+   note="Trusted: reference model (issuance rule transcribed from the statement).", ref="DESIGN.md 4 C05"),
+ "C07": dict(level="exploration", technique="stateful property-based testing with a virtual clock (build-time overlay) against advertised lifetimes",
+   text="Short generated lifetimes and time advances around every expiry the model knows; each credential kind is presented at its endpoint and introspected on both sides of the expiry advertised in the response (+-2 s margin).",
+   note="Trusted: the syntactic clock overlay (self-tested). Refusal class for expired codes/refresh tokens is not asserted (not stated by the property).", ref="DESIGN.md 2.2, 4 C07"),
+ "C08": dict(level="exploration", technique="stateful property-based testing (rapid state machine) against a reference model; per-step introspection invariant",
+   text="Generated revocations at every history position (token kind incl. hybrid authorization-endpoint token, hint, caller, token state); effect, completeness (token issued alongside) and owner restriction are compared with the model after every step.",
+   note="Trusted: reference model. Siblings other than the token issued alongside are unspecified; revoking an expired token leaves its sibling unspecified.", ref="DESIGN.md 4 C08"),
+ "C09": dict(level="exploration", technique="stateful property-based testing: the per-step introspection invariant plus generated endpoint queries (caller credentials, hints, required scopes, token mutants)",
+   text="Every token ever seen is introspected after every step of arbitrary histories and compared (active flag, kind, client, subject, scopes, audience, expiry) with the model; the endpoint is queried with every caller credential class.",
+   note="Trusted: reference model. Stateless JWT introspector not in scope of revocation. Refresh-token exp not compared.", ref="DESIGN.md 4 C09"),
+ "C16": dict(level="exploration", technique="stateful property-based testing (rapid state machine) on the reference store and a contract-following store",
+   text="Generated device-flow histories (authorization, decision, polling by right/wrong client, replay, time advance); single-reason refusal classes, at-most-once, revocation on replay with the contract-following store, code distinctness.",
+   note="Trusted: reference model, the harness TxStore (documented storage contract) and integrator-side user decision.", ref="DESIGN.md 4 C16"),
+ "C17": dict(level="exploration", technique="stateful property-based testing (rapid state machine) against a reference model",
+   text="Generated push/use histories (right/wrong client, twice, after expiry, conflicting query parameters); one-time use, client binding, expiry and authority of the pushed values.",
+   note="Trusted: reference model. A request_uri presented by a foreign client is unspecified afterwards.", ref="DESIGN.md 4 C17"),
+
  "C12": dict(level="exploration",
    technique="property-based testing (rapid) + exhaustive enumeration of the scope/audience pair domain against README-derived reference matchers; flow confinement by generated requests; native fuzzing of the strategies in the thorough tier",
    text="Generated-input search against independent reference matchers written from the README wording: exhaustive over all single-entry scope pairs up to 4/5 segments of {a,b,ab,*,''} and over an audience component table, random multi-entry haystacks, and every flow driven end-to-end with requests around the registration. Exhaustive only for the stated finite domain; elsewhere 'held on everything explored'.",
